@@ -6,7 +6,8 @@
 (* (figure 19.1 of Dorst/Fontijne/Mann), bit_count, the six                *)
 (* orthogonal_blade_product_weight functions, _shared_metric_coeff and the *)
 (* double loop with zero pruning of MultiVector._generic_product, and the  *)
-(* sign tables of rev / invol / inv.                                       *)
+(* sign tables of rev / invol / inv, inv() as a whole (which inputs it     *)
+(* answers), and __eq__ as dict equality.                                  *)
 (*                                                                         *)
 (* This layer never decides a verdict on the implementation.  TLC checks   *)
 (* that it refines the meaning (C18_Clifford) over the bounded space, and  *)
@@ -111,4 +112,43 @@ ImplInvMono(a, g) ==
     IN  Mono(x, QMul(c, QInv(ImplNormSq(a, g))))
 \* inv() of a multi-term multivector of pure grade 0, 1 or n
 ImplInvPure(a, g) == MVScale(QInv(ImplNormSq(a, g)), a)
+
+\* get_pure_grade(): the single grade of all components, None (-1) when mixed
+PureGrade(a) == IF a = MVZero THEN 0
+                ELSE IF Cardinality(Grades(a)) = 1 THEN CHOOSE r \in Grades(a) : TRUE
+                ELSE -1
+\* MultiVector.inv() as a whole: which inputs it answers ([ok |-> TRUE, v |-> value])
+\* and which it refuses.  A multi-term input is accepted when it is of pure grade
+\* 0, 1 or n and is then only divided by its squared norm (no reverse sign: the
+\* reverse of a vector is the vector).  Bug = "inv_any_pure": every pure grade is
+\* accepted by that branch.
+InvRefuse(why) == [ok |-> FALSE, why |-> why, v |-> MVZero]
+ImplInv(a, n, g) ==
+    LET ns == ImplNormSq(a, g) IN
+    IF a = MVZero THEN InvRefuse("ZeroDivisionError")
+    ELSE IF Cardinality(DOMAIN a) > 1
+    THEN IF PureGrade(a) \in ({0, 1, n} \cup (IF Bug = "inv_any_pure" THEN 0..n ELSE {}))
+         THEN (IF QIsZero(ns) THEN InvRefuse("ZeroDivisionError")
+               ELSE [ok |-> TRUE, why |-> "", v |-> MVScale(QInv(ns), a)])
+         ELSE InvRefuse("NotImplementedError")
+    ELSE IF QIsZero(ns) THEN InvRefuse("ZeroDivisionError")
+    ELSE [ok |-> TRUE, why |-> "", v |-> ImplInvMono(a, g)]
+
+\* __eq__: self.data == other.data -- dict equality: the same keys, and the values
+\* equal by the coefficients' own == (numbers by value, expression nodes node by
+\* node).  ta, tb: term lists << increasing word, coefficient tree >>.
+\* Bug = "eq_iszero_diff": coefficients compared through is_zero(c1 - c2); the
+\* difference of two numbers is a number, any other difference is an unsimplified
+\* expression node, which is_zero does not call zero.
+ImplCoefEq(s, t) ==
+    IF Bug = "eq_iszero_diff"
+    THEN s.k = "num" /\ t.k = "num" /\ QIsZero(QSub(QOf(s.q), QOf(t.q)))
+    ELSE NormT(s) = NormT(t)
+TreeDict(ts) == LET D == { BladeToBits(x) : x \in TWords(ts) }
+                IN  [k \in D |-> TreeAt(ts, BitsToBlade(k))]
+ImplEq(ta, tb) ==
+    LET da == TreeDict(ta)
+        db == TreeDict(tb)
+    IN  /\ DOMAIN da = DOMAIN db
+        /\ \A k \in DOMAIN da : ImplCoefEq(da[k], db[k])
 =============================================================================
